@@ -805,6 +805,13 @@ func (u *Unit) specCall(env *specEnv, x *ast.CallExpr) Val {
 		return scalar(tApp("strof", v.Arr), SStr, types.Typ[types.String])
 	case "frontier":
 		return intVal(env.st.frontier)
+	case "won":
+		// won(x.f): this goroutine has won a CompareAndSwap transition on the state word x.f during this call
+		v := u.specEval(env, x.Args[0])
+		if g, ok := env.st.ghost["$castok:"+v.S]; ok {
+			return boolVal(g.S)
+		}
+		return boolVal("false")
 	case "fresh":
 		// fresh(x): x was allocated during the call (not before the pre-state)
 		if env.old == nil {
